@@ -16,7 +16,8 @@ RULE = ('Generated files rendered from an abstract description with equivalent s
         'macros vs literals, repeated subsections, blocks / links / modifications interleaved in any order): (a) .ff files '
         'with variables, macros, 0-4 blocks, 0-5 links, 0-3 modifications; (b) .itp files with 1-3 moleculetypes, '
         'interactions by index, #ifdef/#ifndef/#else blocks; (c) backward-style .map files with multiplicities and "!" '
-        'markers. (d) one fault per file (unknown section, undefined block atom, duplicate block atom, unbalanced brace, '
+        'markers, and new-style .mapping files with 1-3 block mappings over 1-2 from/to residues, shorthand identifiers, explicit '
+        'and implicit identifiers, integer weights. (d) one fault per file (unknown section, undefined block atom, duplicate block atom, unbalanced brace, '
         'prefix/order contradiction, wrong atom count closed by "--" or too short a line, index beyond the atoms of an '
         'itp molecule) injected at a random eligible position must raise. Non-trivial .ff = >= 2 links with >= 1 top-level '
         'section between/after them; non-trivial .itp = >= 2 moleculetypes with a later one longer than the first. '
@@ -802,6 +803,102 @@ def check_map(rnd, b):
     return None, text
 
 
+
+# =============================================================== (c2) new-style .mapping
+def check_mapping(rnd, b):
+    from vermouth.forcefield import ForceField
+    from vermouth.map_input import read_mapping_file
+    from vermouth.molecule import Block
+    ffa, ffb = ForceField(name='srcff'), ForceField(name='dstff')
+    blocks = {}
+    for ff, prefix, sizes in ((ffa, 'R', (2, 5)), (ffb, 'T', (1, 3))):
+        for i in range(4):
+            blk = Block(force_field=ff)
+            blk.name = '%s%d' % (prefix, i)
+            blk.nrexcl = 1
+            n = rnd.randint(*sizes)
+            names = ['%s%d%s' % ('A' if prefix == 'R' else 'B', i, chr(97 + j)) for j in range(n)]
+            for nm in names:
+                blk.add_atom({'atomname': nm, 'resname': blk.name, 'resid': 1, 'charge_group': 1, 'atype': 'x'})
+            for x, y in zip(names, names[1:]):
+                blk.add_edge(x, y)
+            ff.blocks[blk.name] = blk
+            blocks[blk.name] = names
+    out = ['; generated .mapping file']
+    specs = []
+    used_names = set()
+    for mi in range(rnd.randint(1, 3)):
+        nfrom, nto = rnd.choice([1, 1, 2]), rnd.choice([1, 1, 2])
+        fb = [rnd.choice(['R0', 'R1', 'R2', 'R3']) for _ in range(nfrom)]
+        if tuple(fb) in used_names:
+            continue
+        used_names.add(tuple(fb))
+        tb = [rnd.choice(['T0', 'T1', 'T2', 'T3']) for _ in range(nto)]
+        fid = ['%s#%d' % (x, i + 1) for i, x in enumerate(fb)] if (nfrom > 1 or rnd.random() < 0.3) else list(fb)
+        tid = ['%s#%d' % (x, i + 1) for i, x in enumerate(tb)] if (nto > 1 or rnd.random() < 0.3) else list(tb)
+        out += ['', '[ block ]', '[ from ]', 'srcff', '[ to ]', 'dstff', '[ from blocks ]', ' '.join(fid), '[ to blocks ]', ' '.join(tid), '[ mapping ]']
+        foff = [0]
+        for x in fb:
+            foff.append(foff[-1] + len(blocks[x]))
+        toff = [0]
+        for x in tb:
+            toff.append(toff[-1] + len(blocks[x]))
+        expected = {}
+        last_from = last_to = None
+        lines = []
+        for k, x in enumerate(fb):
+            for pos, atom in enumerate(blocks[x]):
+                if rnd.random() < 0.15:
+                    continue          # unmapped atom
+                for _ in range(rnd.choice([1, 1, 2])):
+                    tk = rnd.randrange(nto)
+                    tpos = rnd.randrange(len(blocks[tb[tk]]))
+                    tatom = blocks[tb[tk]][tpos]
+                    w = rnd.choice([None, None, 0, 1, 2, 3])
+                    fspec = '%s:%s' % (fid[k], atom) if (nfrom > 1 and last_from != k) or rnd.random() < 0.4 else atom
+                    if nfrom > 1 and last_from != k:
+                        fspec = '%s:%s' % (fid[k], atom)
+                    tspec = '%s:%s' % (tid[tk], tatom) if (nto > 1 and last_to != tk) or rnd.random() < 0.4 else tatom
+                    if nto > 1 and last_to != tk:
+                        tspec = '%s:%s' % (tid[tk], tatom)
+                    last_from, last_to = k, tk
+                    lines.append('%s %s%s' % (fspec, tspec, '' if w is None else ' %d' % w))
+                    expected.setdefault(foff[k] + pos, {})[toff[tk] + tpos] = 1 if w is None else w
+        if not lines:
+            atom, tatom = blocks[fb[0]][0], blocks[tb[0]][0]
+            lines.append('%s:%s %s:%s' % (fid[0], atom, tid[0], tatom))
+            expected[0] = {0: 1}
+        out += lines
+        specs.append({'names': tuple(fb), 'mapping': expected, 'n_to': toff[-1],
+                      'from_resids': {foff[k] + pos: k + 1 for k, x in enumerate(fb) for pos in range(len(blocks[x]))}})
+    text = '\n'.join(out) + '\n'
+    b.hits += 1
+    try:
+        maps = read_mapping_file(text.splitlines(), {'srcff': ffa, 'dstff': ffb})
+    except Exception as e:
+        import traceback
+        return ('mapping/valid-file-rejected', {'error': repr(e), 'cause': repr(e.__cause__), 'text': text}), text
+    got = maps.get('srcff', {}).get('dstff', {})
+    if sorted(got) != sorted(sp['names'] for sp in specs):
+        return ('mapping/mapping-list', {'observed': sorted(got), 'expected': sorted(sp['names'] for sp in specs), 'text': text}), text
+    for sp in specs:
+        m = got[sp['names']]
+        obs = {k: dict(v) for k, v in m.mapping.items()}
+        if obs != sp['mapping']:
+            return ('mapping/weights', {'names': sp['names'], 'observed': obs, 'expected': sp['mapping'], 'text': text}), text
+        if set(m.block_from.nodes) != set(sp['mapping']):
+            return ('mapping/from-block-nodes', {'names': sp['names'], 'observed': sorted(m.block_from.nodes), 'expected': sorted(sp['mapping'])}), text
+        if len(m.block_to) != sp['n_to']:
+            return ('mapping/to-block-nodes', {'names': sp['names'], 'observed': len(m.block_to), 'expected': sp['n_to']}), text
+        for idx in m.block_from.nodes:
+            if m.block_from.nodes[idx].get('resid') != sp['from_resids'][idx]:
+                return ('mapping/from-block-resid', {'names': sp['names'], 'node': idx, 'observed': m.block_from.nodes[idx].get('resid'),
+                                                     'expected': sp['from_resids'][idx]}), text
+        if tuple(m.names) != sp['names'] or m.ff_from != 'srcff' or m.ff_to != 'dstff':
+            return ('mapping/header', {'names': m.names, 'ff_from': str(m.ff_from), 'ff_to': str(m.ff_to)}), text
+    return None, text
+
+
 def cases(tier, seed):
     nb, per = (32, 120) if tier == 'quick' else (128, 1200)
     return [{'seed': seed, 'batch': b, 'n': per} for b in range(nb)]
@@ -843,11 +940,16 @@ def run_case(params):
                 b.total -= 1
                 continue
             b.feat('fault_' + fault)
-        else:
+        elif r < 0.94:
             p, text = check_map(rnd, b)
             b.feat('map_files')
             if not p:
                 b.nontrivial(text, {'map_text': text[:1500]})
+        else:
+            p, text = check_mapping(rnd, b)
+            b.feat('mapping_files')
+            if not p and text.count('[ block ]') >= 2:
+                b.nontrivial(text, {'mapping_text': text[:1500]})
         if p:
             b.violation(p[0], 'loaded objects differ from what the file declares (%s)' % p[0], {'subcase': j, 'detail': p[1]})
     return b.result()
